@@ -619,4 +619,23 @@ _C08 = [
 for _sp in _C08:
     _sp.update(module='boltons.iterutils', lean_name=_sp['qualname'], kind='function', raises=True,
                translator='py2lean_c08', gen_file='iterutils_remap')
+# the main loop of remap (LOOP MODE, notes/SRCTIE.md 7.6): from the initialisation of `stack` to `return value`; the
+# callbacks are function parameters, `visit is _orig_default_visit` is the Bool `visit_is_default`, `reraise_visit` a Bool,
+# the `None` key of the root entry is `none_key`; statements printing under a trace flag are not modelled.
+_C08_LOOP = {
+    'qualname': 'remap', 'lean_name': 'remap_loop', 'kind': 'loop', 'result': 'V', 'raises': True,
+    'module': 'boltons.iterutils', 'translator': 'py2lean_c08', 'gen_file': 'iterutils_remap',
+    'params': {'root': 'V', 'visit': 'VisitFn', 'enter': 'EnterFn', 'exit': 'ExitFn', 'visit_is_default': 'Bool',
+               'reraise_visit': 'Bool', 'none_key': 'K'},
+    'loop': {'signature': ['root', 'visit', 'enter', 'exit'], 'stack': 'stack', 'exit_marker': '_REMAP_EXIT',
+             'none_key': 'none_key', 'result_var': 'value',
+             'locals': {'path': 'Path', 'registry': 'Registry', 'stack': 'Stack', 'new_items_stack': 'NIS', 'entered': 'Vals'},
+             'callbacks': {'enter': ('enter', ['Path', 'K', 'V'], 'EnterRes'),
+                           'exit': ('exit_', ['Path', 'K', 'V', 'V', 'Pairs'], 'V'),
+                           'visit': ('visit', ['Path', 'K', 'V'], 'VisitRes')},
+             'identity_flags': [('visit', '_orig_default_visit', 'visit_is_default')],
+             'trace_flags': ['trace_enter', 'trace_exit', 'trace_visit']},
+    'tie_theorem': 'C08.src_remap_loop_simulates_hstep'}
+if __import__('os').environ.get('C08_LOOP') == '1':
+    _C08.append(_C08_LOOP)
 SPECS['C08'] = _C08
